@@ -324,6 +324,31 @@ func dependsOnSessionField(v ssa.Value, field string, d int) bool {
 	case *ssa.Slice:
 		return dependsOnSessionField(x.X, field, d+1)
 	case *ssa.Extract:
+		// result #k of a helper that is handed the session: only if that result is computed from the field
+		// ("i, r = qr.skipInnerPrefix(i)": r is the comparison with the stored prefix, i is not)
+		if call, ok := x.Tuple.(*ssa.Call); ok {
+			if g := calleeOf(call); g != nil && trieScope(g) && len(g.Blocks) > 0 {
+				passes := false
+				for _, a := range call.Call.Args {
+					if isSessionPtr(a) {
+						passes = true
+					}
+				}
+				if passes {
+					for _, ret := range returnsOf(g) {
+						if x.Index < len(ret.Results) && dependsOnSessionField(ret.Results[x.Index], field, d+1) {
+							return true
+						}
+					}
+					for _, a := range call.Call.Args {
+						if dependsOnSessionField(a, field, d+1) {
+							return true
+						}
+					}
+					return false
+				}
+			}
+		}
 		return dependsOnSessionField(x.Tuple, field, d+1)
 	case *ssa.Phi:
 		for _, e := range x.Edges {
